@@ -40,6 +40,8 @@ enum Ans {
     Accept,
     AcceptReporting(usize),
     Refuse(usize),
+    /// refuse with an OS error (`io::Error::from_raw_os_error`), e.g. ENOBUFS, EAGAIN, ECONNREFUSED
+    RefuseOs(i32),
 }
 
 #[derive(Default)]
@@ -62,6 +64,7 @@ impl MetricSink for ScriptedSink {
                 let t = s.tok;
                 Err(tok_err(k, t))
             }
+            Ans::RefuseOs(n) => Err(io::Error::from_raw_os_error(n)),
         }
     }
 }
@@ -71,6 +74,8 @@ fn merr_repr(e: &MetricError) -> String {
     match e.kind() {
         cadence::ErrorKind::InvalidInput => "inv".to_string(),
         cadence::ErrorKind::IoError => match e.source().and_then(|s| s.downcast_ref::<io::Error>()) {
+            // an OS error is identified by its errno (token 1000000 + errno)
+            Some(i) if i.raw_os_error().is_some() => format!("io:os:{}", 1000000 + i.raw_os_error().unwrap()),
             Some(i) => format!("io:{}", err_repr(i)),
             None => "io:?:?".to_string(),
         },
@@ -322,6 +327,8 @@ fn run_fmt(prefix: &str, tags: &str, cid: &str, calls: &str) -> String {
                 Ans::Accept
             } else if let Some(n) = sinkt.strip_prefix('b') {
                 Ans::AcceptReporting(if n == "m" { usize::MAX } else { n.parse().unwrap_or(0) })
+            } else if let Some(n) = sinkt.strip_prefix('o') {
+                Ans::RefuseOs(n.parse().unwrap_or(5))
             } else {
                 Ans::Refuse(sinkt[1..].parse().unwrap())
             });
@@ -386,6 +393,8 @@ fn run_raw(texth: &str, sinkt: &str, mode: &str) -> String {
             Ans::Accept
         } else if let Some(n) = sinkt.strip_prefix('b') {
             Ans::AcceptReporting(n.parse().unwrap_or(0))
+        } else if let Some(n) = sinkt.strip_prefix('o') {
+            Ans::RefuseOs(n.parse().unwrap_or(5))
         } else {
             Ans::Refuse(sinkt[1..].parse().unwrap_or(15))
         });
@@ -445,8 +454,9 @@ fn run_line(line: &str) -> Option<String> {
 // ------------------------------------------------------------------------------------------------
 // generators
 
-const STRS: [&str; 14] = [
-    "k", "some.key", "a", "user", "web-01", "x_y", "日本", "é", "", "a.b.", "..", "with space", "UPPER", "0",
+const STRS: [&str; 18] = [
+    "k", "some.key", "a", "user", "web-01", "x_y", "日本", "é", "", "a.b.", "..", "with space", "UPPER", "0", " lead",
+    "trail ", "tab\t", " ",
 ];
 const HOSTILE: [&str; 10] = ["a:b", "a|b", "#x", "a,b", "@r", "l\nm", "|#", "c:", "T1", ""];
 
@@ -596,7 +606,12 @@ fn gen_val(rng: &mut Rng, ty: &str) -> String {
                 (0..n)
                     .map(|i| {
                         if Some(i) == over {
-                            dur_tok(&Duration::new(18446744073709552 + rng.below(5), 0))
+                            if rng.chance(50) {
+                                dur_tok(&Duration::new(18446744073709552 + rng.below(5), 0))
+                            } else {
+                                // overflows as nanoseconds, fits as milliseconds
+                                dur_tok(&Duration::new(rng.range(18446744074, 18446744073709551), rng.below(1_000_000_000) as u32))
+                            }
                         } else {
                             dur_tok(&Duration::new(rng.below(18446744073), rng.below(1_000_000_000) as u32))
                         }
@@ -619,7 +634,7 @@ fn gen_cfg(rng: &mut Rng, hostile: bool) -> (String, String, String) {
         1 => "p.".to_string(),
         2 => "p..".to_string(),
         3 => "...".to_string(),
-        4 => "app.日本".to_string(),
+        4 => (*rng.pick(&["app.日本", "app ", " app", "app. ", " "])).to_string(),
         5 => ".lead".to_string(),
         _ => gen_str(rng, hostile),
     };
@@ -682,7 +697,12 @@ fn gen_bops(rng: &mut Rng, mask: u32, hostile: bool) -> String {
 
 fn gen_sink(rng: &mut Rng, failpct: u64) -> String {
     if rng.chance(failpct) {
-        format!("r{}", rng.below(16))
+        if rng.chance(25) {
+            // OS-coded errors: ENOBUFS, EAGAIN, ECONNREFUSED, EMSGSIZE, EPERM, ENOENT, EINTR
+            format!("o{}", rng.pick(&[105, 11, 111, 90, 1, 2, 4]))
+        } else {
+            format!("r{}", rng.below(16))
+        }
     } else if rng.chance(15) {
         // an accepting sink may report any byte count
         (*rng.pick(&["b0", "b1", "b7", "bm", "b4096"])).to_string()
@@ -783,7 +803,7 @@ fn exhaustive_outcomes(out: &mut impl Write, count: &mut u64) {
             _ => None,
         };
         for form in ["p", "t", "s"] {
-            for sink in ["a", "b0", "b1", "r8", "r15", "r4", "r11"] {
+            for sink in ["a", "b0", "b1", "r8", "r15", "r4", "r11", "o105", "o11"] {
                 let mut calls = vec![format!("{}/{}/{}/{}/-/{}", entry, form, h("k"), valid, sink)];
                 if let Some(iv) = invalid {
                     calls.push(format!("{}/{}/{}/{}/-/{}", entry, form, h("k"), iv, sink));
